@@ -322,7 +322,11 @@ func (dec *Decoder) LastReferenceIndex() int {
 
 // ReadReference to p.
 func (dec *Decoder) ReadReference(p interface{}) {
-	o := dec.refer.Read(dec.ReadInt())
+	dec.convertReference(dec.refer.Read(dec.ReadInt()), p)
+}
+
+// convertReference stores the referred object o into p through the converter for their types.
+func (dec *Decoder) convertReference(o interface{}, p interface{}) {
 	src := reflect.TypeOf(o)
 	dest := reflect.TypeOf(p).Elem()
 	if conv := GetConverter(src, dest); conv != nil {
